@@ -142,6 +142,18 @@ def check_par(tier, pid, chk=None):
             ch = [rng.below(8) for _ in range(rng.range(0, 80))]
             cases.append((i, ps_line(T, ctor, flv, cache, fr, w, cut, dom, ch), "rand", None))
             stats["random_schedules"] += 1
+    # ---- two-abort recipe (C04 / C05): worker 0 processes the root alone, then the workers alternate so that several of them hold a
+    #      node when the cutoff fires a few polls after the root has been processed (the situation of defect D3 and of its variants)
+    if pid in ("C04", "C05"):
+        for i in range(nsys, nsys + nrand):
+            if i % 2 == 0: continue
+            I = insts[i]
+            for T in (2, 3):
+                for d in (1, 2, 3, 5, 8, 13):
+                    flv, cache, fr = rng.choice([(0, 0, 0), (1, 0, 1), (0, 1, 0), (2, 0, 0)])
+                    ch = [0] * 8 + [x for _ in range(40) for x in range(T - 1, -1, -1)]
+                    cases.append((i, ps_line(T, T, flv, cache, fr, 1, 2 * I.nvars + d, 0, ch), "two-abort-recipe", None))
+                    stats["random_schedules"] += 1
     todo = [(insts[i].line(), c) for (i, c, kind, oi) in cases]
     outs = run_ps(todo, which=("impl", "model"))
     for (i, case, kind, _), (oi, om) in zip(cases, outs):
